@@ -9,6 +9,8 @@
   (`decoded_finalized`; Props/C02FinalUnordered.lean: its chronological hypothesis is needed), Props/C02FinalMania.lean (taiko / mania, all modes), Props/C02FinalToy.lean (non-vacuity),
   Props/C02FinalCurves.lean (gap (e): the computed curves of re-decoded sliders, `roundtrip_curves_partial`) and
   Props/C02FinalScroll.lean (gap (d): `ScrollDrivesSv` of decoded taiko / mania maps, `decoded_scrollDrivesSv`; false for out-of-order timing lines).
+  Props/C02Capstone.lean — the CAPSTONE: `ExactLaws`, `DecodedDomain`, `PreservedEq`, `roundtrip_decoded_capstone` (one theorem about
+  decoded maps, every exclusion a named field), `roundtrip_statement_full`; Props/C02CapstoneToy.lean: non-vacuity on a decoded file.
   All in namespace `Rosu.C02`.
 -/
 import RosuModel.Props.C02Slider
@@ -29,3 +31,4 @@ import RosuModel.Props.C02FinalCurves
 import RosuModel.Props.C02FinalScroll
 import RosuModel.Props.C02FinalScrollToy
 import RosuModel.Props.C02FinalScrollExact
+import RosuModel.Props.C02Capstone
